@@ -867,6 +867,29 @@ def _beta_reduce_lambdas(fn):
   return False
 
 
+def _desugar_suppress(fn):
+  """C22: `with contextlib.suppress(E1, ...): BODY` is
+  `try: BODY except (E1, ...): pass`."""
+  for parent in ast.walk(fn):
+    for blk in _canon_blocks(parent):
+      for i, st in enumerate(blk):
+        if isinstance(st, ast.With) and len(st.items) == 1 and \
+            st.items[0].optional_vars is None and isinstance(
+                st.items[0].context_expr, ast.Call) and dotted(
+                    st.items[0].context_expr.func) in (
+                        'contextlib.suppress', 'suppress') and \
+            st.items[0].context_expr.args and \
+            not st.items[0].context_expr.keywords:
+          args = st.items[0].context_expr.args
+          typ = args[0] if len(args) == 1 else ast.copy_location(
+              ast.Tuple(elts=list(args), ctx=ast.Load()), st)
+          h = ast.copy_location(ast.ExceptHandler(
+              type=typ, name=None, body=[ast.copy_location(ast.Pass(), st)]),
+                                st)
+          blk[i] = ast.copy_location(ast.Try(
+              body=st.body, handlers=[h], orelse=[], finalbody=[]), st)
+
+
 def _merge_nested_try(fn):
   """C20: `try: (try: A except E: H) finally: F` is `try: A except E: H
   finally: F` (the outer try has no handlers / else of its own and its body
@@ -912,6 +935,7 @@ def _canon_function_once(fn):
   for _ in range(3):
     if not _beta_reduce_lambdas(fn):
       break
+  _desugar_suppress(fn)
   _merge_nested_try(fn)
   _strip_bool_in_tests(fn)
   for _ in range(4):
